@@ -149,6 +149,10 @@ class Wsdl11(XmlSchema):
 
         self.build_schema_nodes()
 
+        # these hold nodes of the tree that is being replaced.
+        self.port_type_dict = {}
+        self.service_elt_dict = {}
+
         self.url = REGEX_WSDL.sub('', url)
 
         service_name = self.interface.get_name()
